@@ -234,8 +234,17 @@ func (ft *FT) fnPkg() *types.Package {
 // specCtx: function-level spec context (parameters, receiver, captured variables).
 func (ft *FT) specCtx(st, old *State) *SpecCtx {
 	vars := map[string]SpecVal{}
-	for _, p := range ft.fn.Params {
-		vars[p.Name()] = SpecVal{T: ft.env[p][0], Typ: p.Type(), Sort: ft.d.sortOf(p.Type())}
+	k := 0
+	for i, p := range ft.fn.Params {
+		sv := SpecVal{T: ft.env[p][0], Typ: p.Type(), Sort: ft.d.sortOf(p.Type())}
+		vars[p.Name()] = sv
+		// positional names (arg0, arg1, ... without the receiver), as at call sites: a parameter called `result` or `err`
+		// is otherwise hidden by the result variables in postconditions
+		if i == 0 && ft.fn.Signature.Recv() != nil {
+			continue
+		}
+		vars[fmt.Sprintf("arg%d", k)] = sv
+		k++
 	}
 	ctx := &SpecCtx{ft: ft, pkg: ft.fnPkg(), st: st, old: old, vars: vars}
 	ctx.local = func(cc *SpecCtx, name string) (SpecVal, bool, error) {
@@ -507,6 +516,9 @@ func (ft *FT) exitObligations(pos token.Pos, st *State, guard Term, results []Te
 		clauses = append(append([]*Clause{}, clauses...), ft.con.Checks...)
 	}
 	for _, e := range clauses {
+		if e.Assumed {
+			continue
+		}
 		t, err := ctx.boolExpr(e.Expr)
 		if err != nil {
 			if e.WhereDefined && strings.Contains(err.Error(), "unknown identifier") {
